@@ -1,7 +1,7 @@
 (* C19 — correspondence cases.  The implementation's observation is part of each case; check_corr compares it with the
    model, check_spec evaluates the property's own specification (Spec.decision_okb: the four clauses) on it. *)
 From Coq Require Import ZArith List Bool.
-Require Import QV.common.Util QV.C19.Model QV.C19.Spec.
+Require Import QV.common.Util QV.C19.Model QV.C19.Spec QV.C19.Driver.
 Import ListNotations.
 Open Scope Z_scope.
 
@@ -10,7 +10,18 @@ Inductive impl_obs :=
 | IRet (w2s : list Z) (amend : list bool) (ins : list Z)
 | IRefuse (k : option error).   (* RuntimeError; the kind is recognised from the message text, None = unrecognised *)
 
+(* what the real TaborChannelPair bookkeeping (run against an abstract fake instrument, see harness/props/c19_driver.py)
+   looked like after one operation of a history *)
+Inductive herr := HNone | HRefused | HAlreadyKnown | HUnknownProgram | HInternal.
+Record hobs := {
+  ho_err : herr;
+  ho_hashes : list Z; ho_caps : list Z; ho_refs : list Z;
+  ho_progs : list (nat * list Z * list Z);      (* name, waveform_to_segment, hashes of the program's segments *)
+  ho_dev : list (option Z)                      (* content of the instrument's slots 1..n (None = undefined) *)
+}.
+
 Inductive case :=
+| CHist (total : Z) (ops : list op) (obs : list hobs)
 | CPlace (hashes refs caps : list Z) (total : Z) (new_hashes new_lens : list Z) (impl : impl_obs)
          (inputs_unchanged : bool)
 | CCrash.   (* the implementation crashed with an unexpected exception or did not return *)
@@ -22,8 +33,57 @@ Definition error_eqb (a b : error) : bool :=
   | _, _ => false
   end.
 
+Definition herr_of (e : option derror) : herr :=
+  match e with
+  | None => HNone
+  | Some (Refused _) => HRefused
+  | Some AlreadyKnown => HAlreadyKnown
+  | Some UnknownProgram => HUnknownProgram
+  | Some (RefCountNotZero | TooLarge | BadIndex) => HInternal
+  end.
+Definition herr_eqb (a b : herr) : bool :=
+  match a, b with
+  | HNone, HNone | HRefused, HRefused | HAlreadyKnown, HAlreadyKnown | HUnknownProgram, HUnknownProgram
+  | HInternal, HInternal => true
+  | _, _ => false
+  end.
+
+Definition prog_eqb (a : nat * list Z * list Z) (p : prog) : bool :=
+  Nat.eqb (fst (fst a)) (pg_name p) && zlist_eqb (snd (fst a)) (pg_w2s p) && zlist_eqb (snd a) (pg_segs p).
+
+Definition state_eqb (d : driver) (o : hobs) : bool :=
+  zlist_eqb (dv_hashes d) (ho_hashes o) && zlist_eqb (dv_caps d) (ho_caps o) && zlist_eqb (dv_refs d) (ho_refs o)
+  && Nat.eqb (length (dv_known d)) (length (ho_progs o))
+  && forallb (fun a => existsb (prog_eqb a) (dv_known d)) (ho_progs o)
+  && list_eqb (opt_eqb Z.eqb) (map Some (dv_dev d)) (ho_dev o).
+
+Fixpoint hist_corr (d : driver) (ops : list op) (obs : list hobs) : bool :=
+  match ops, obs with
+  | [], [] => true
+  | o :: ops', ob :: obs' =>
+      let '(d', e) := step_with find_place d o in
+      herr_eqb (herr_of e) (ho_err ob) && state_eqb d' ob && hist_corr d' ops' obs'
+  | _, _ => false
+  end.
+
+(* the history property on the implementation's own observation: every known program's waveform sits in an existing
+   slot whose instrument content is the waveform's hash and whose reference count is at least 1 *)
+Definition obs_safe (o : hobs) : bool :=
+  forallb (fun a =>
+             let w2s := snd (fst a) in
+             let segs := snd a in
+             Nat.eqb (length w2s) (length segs) &&
+             forallb (fun qh => let q := fst qh in
+                                (0 <=? q) && (Z.to_nat q <? length (ho_dev o))%nat
+                                && opt_eqb Z.eqb (nth (Z.to_nat q) (ho_dev o) None) (Some (snd qh))
+                                && (1 <=? nth (Z.to_nat q) (ho_refs o) 0))
+                     (combine w2s segs))
+          (ho_progs o)
+  && negb (herr_eqb (ho_err o) HInternal).
+
 Definition check_corr (c : case) : bool :=
   match c with
+  | CHist total ops obs => hist_corr (clear total) ops obs
   | CPlace h r cp t nh nl impl unchanged =>
       unchanged &&   (* the function is pure: the driver's arrays are not modified *)
       match find_place {| m_hashes := h; m_refs := r; m_caps := cp; m_total := t |} nh nl, impl with
@@ -40,6 +100,7 @@ Definition check_corr (c : case) : bool :=
    unsigned) are outside the property and only compared with the model. *)
 Definition check_spec (c : case) : bool :=
   match c with
+  | CHist total ops obs => Nat.eqb (length ops) (length obs) && forallb obs_safe obs
   | CPlace h r cp t nh nl impl _ =>
       match impl with
       | IRet w a i => negb (forallb (fun x => 0 <=? x) r) ||
